@@ -31,6 +31,7 @@ func c07Flows(c *Ctx, r *Report) {
 		{cl, "a tagged identifier's tag is copied to its grammar symbol", "(*Walker).BuildLALR1", "SetTag", 0, ".Tag", []string{"?$ok", `?.Tag != ""`, "?.Value != -1"}, true},
 	})
 	c07TagLocals(c, r)
+	idTableCreatedOnce(c, r, cl)
 }
 
 func c04Flows(c *Ctx, r *Report) {
@@ -59,6 +60,7 @@ func c11Flows(c *Ctx, r *Report) {
 	checkRequiredCalls(c, r, []requiredCall{
 		{cl, "every identifier's code is copied to its grammar symbol", "(*Walker).BuildLALR1", "SetValue", 0, ".Value", []string{"?$ok", "?.Value != -1"}, true},
 	})
+	idTableCreatedOnce(c, r, cl)
 }
 
 func c12Flows(c *Ctx, r *Report) {
@@ -216,6 +218,75 @@ func c10SectionExtents(c *Ctx, r *Report) {
 				return true
 			}
 			why = ""
+			// WHERE the two positions are taken. The end: in the statement that emits, or in the statement directly
+			// before it in the same block (nothing moves the cursor in between); for %{ … %} that block is the arm
+			// taken when acceptWord(closer) succeeded. The start: at function level (not inside the scanning loop),
+			// before the emit.
+			pm := parentMap(f.Decl.Body)
+			var emitStmt ast.Stmt
+			for cur := ast.Node(call); cur != nil; cur = pm[cur] {
+				if st, isS := cur.(ast.Stmt); isS {
+					if _, inBlock := pm[cur].(*ast.BlockStmt); inBlock {
+						emitStmt = st
+						break
+					}
+				}
+			}
+			blk, _ := pm[emitStmt].(*ast.BlockStmt)
+			if emitStmt == nil || blk == nil {
+				why = "the emitting statement is not directly inside a block"
+				return true
+			}
+			if hi := identObj(info, se.High); hi != nil {
+				prevOK := false
+				for i, st := range blk.List {
+					if st == emitStmt && i > 0 {
+						if as, isA := blk.List[i-1].(*ast.AssignStmt); isA && len(as.Lhs) == 1 && identObj(info, as.Lhs[0]) == hi {
+							prevOK = true
+						}
+					}
+				}
+				if !prevOK {
+					why = "the end position is not taken in the statement directly before the emit: the cursor can move in between (skipped blanks or part of the text would be cut off or kept)"
+					return true
+				}
+			}
+			if sp.closer == "%}" {
+				guarded := false
+				for _, a := range guardAtoms(c, f, emitStmt) {
+					if strings.Contains(a, "acceptWord(") && !strings.HasPrefix(a, "!") {
+						guarded = true
+					}
+				}
+				if !guarded {
+					why = "the value is emitted without the closing marker having just been recognised by acceptWord"
+					return true
+				}
+			}
+			loDef := false
+			for _, st := range f.Decl.Body.List {
+				if st.Pos() > emitStmt.Pos() {
+					break
+				}
+				switch x := st.(type) {
+				case *ast.AssignStmt:
+					for _, l := range x.Lhs {
+						if identObj(info, l) == lo {
+							loDef = true
+						}
+					}
+				case *ast.DeclStmt:
+					ast.Inspect(x, func(m ast.Node) bool {
+						if id, isI := m.(*ast.Ident); isI && info.Defs[id] == lo {
+							loDef = true
+						}
+						return true
+					})
+				}
+			}
+			if !loDef {
+				why = "the start position is not recorded by a statement at function level before the scan (inside the loop it would move with the cursor)"
+			}
 			return true
 		})
 		r.Check(why == "", cl, "R13 AFFINE", key, c.pos(f.Decl.Pos()),
@@ -549,35 +620,29 @@ func c10DirectiveWords(c *Ctx, r *Report, clause string) {
 	if f == nil {
 		return
 	}
-	info := f.Pkg.TypesInfo
 	want := map[string]string{"type": "TypeDirective", "token": "TokenDirective", "left": "LeftAssoc", "right": "RightAssoc", "nonassoc": "NoneAssoc", "prec": "PrecDirective", "start": "StartDirective"}
 	kinds := kindConsts(c)
 	got := map[string]string{}
-	for _, st := range f.Decl.Body.List {
-		is, ok := st.(*ast.IfStmt)
-		if !ok || is.Else != nil {
-			continue
+	arms := directiveArms(f)
+	var shared []string
+	for _, a := range arms {
+		if a.kind != "" {
+			got[a.word] = a.kind
 		}
-		call, ok := unparen(is.Cond).(*ast.CallExpr)
-		if !ok || len(call.Args) != 1 {
-			continue
+		if !a.exclusive {
+			shared = append(shared, "%"+a.word)
 		}
-		fn := callee(info, call)
-		w, isC := constString(info, call.Args[0])
-		if fn == nil || !strings.HasPrefix(fn.Name(), "accept") || !isC {
-			continue
-		}
-		for _, bs := range is.Body.List {
-			if es, ok := bs.(*ast.ExprStmt); ok {
-				if ec, ok := es.X.(*ast.CallExpr); ok && len(ec.Args) == 1 {
-					if efn := callee(info, ec); efn != nil && efn.Name() == "emit" {
-						if kv, ok := constString(info, ec.Args[0]); ok {
-							got[w] = kv
-						}
-					}
-				}
-			}
-		}
+	}
+	// exactly one keyword follows the `%`: once an arm has matched, no other keyword may be tried on the text that
+	// FOLLOWS the directive — `%left prec_neg`, `%token left_paren`, `%type token_sep` would lose their first
+	// identifier to a second directive (acceptOnlyAlphaWord skips blanks and stops at `_` or a digit)
+	sortStrings(shared)
+	if len(arms) < 8 {
+		r.Undecided(clause, "R4 DECISION-TABLE", f.Name+"/one-keyword-per-directive", c.pos(f.Decl.Pos()), fmt.Sprintf("only %d keyword arms recognised (9 confirmed by hand)", len(arms)))
+	} else {
+		r.Check(len(shared) == 0, clause, "R4 DECISION-TABLE", f.Name+"/one-keyword-per-directive", c.pos(f.Decl.Pos()),
+			fmt.Sprintf("the %d keyword arms are mutually exclusive (cases of one switch, an else-if chain, or arms that return): the text after a recognised directive is never tested for another keyword", len(arms)),
+			"after "+strings.Join(shared, ", ")+" matched, the following keywords are still tried on the text behind the directive: an identifier that starts with a directive word and continues with `_` or a digit (prec_neg, left_paren, type_list) is swallowed as a second directive and the declaration is silently misread")
 	}
 	var bad []string
 	for w, k := range want {
@@ -1090,4 +1155,314 @@ func cursorParamOf(c *Ctx, info *types.Info, call *ast.CallExpr) int {
 		return -1
 	}
 	return idx
+}
+
+// idTableCreatedOnce — the identifier table maps a name to ONE Idendity for the whole run: tags, codes and precedence
+// entries are merged into it and other tables keep pointers to it. Every store `…idsymtabl[K] = V` must therefore be
+// guarded by `…idsymtabl[K] == nil` for the same key K (directly, or as the else-arm of `if in := …[K]; in != nil`):
+// a store that can replace an existing entry drops what earlier declarations put there (a %type tag, an explicit code)
+// and leaves the precedence list pointing at the old object.
+func idTableCreatedOnce(c *Ctx, r *Report, clause string) {
+	n, bad := 0, []string{}
+	for _, f := range c.AllFuncs() {
+		if f.Pkg.Types.Name() != "parser" {
+			continue
+		}
+		info := f.Pkg.TypesInfo
+		defs := newDefs(info)
+		defs.scan(f.Decl.Body)
+		pc := &pathCtx{info: info, defs: defs, root: f.Decl.Body}
+		ast.Inspect(f.Decl.Body, func(nd ast.Node) bool {
+			as, ok := nd.(*ast.AssignStmt)
+			if !ok || as.Tok != token.ASSIGN {
+				return true
+			}
+			for _, l := range as.Lhs {
+				ix, ok := unparen(l).(*ast.IndexExpr)
+				if !ok || !fieldNamed(info, ix.X, "idsymtabl") {
+					continue
+				}
+				n++
+				want := "(" + pc.path(ix) + " == nil)"
+				found := false
+				atoms := guardAtoms(c, f, as)
+				for _, a := range atoms {
+					if a == want {
+						found = true
+					}
+				}
+				if !found {
+					bad = append(bad, fmt.Sprintf("%s at %s stores under guards %v, none of which is %s", f.Name, c.pos(as.Pos()), atoms, want))
+				}
+			}
+			return true
+		})
+	}
+	sortStrings(bad)
+	if n < 4 {
+		r.Undecided(clause, "R4 WHO-WRITES", "Parser/identifier-table-entries-are-created-once", "Parser/Vistor.go", fmt.Sprintf("only %d stores into idsymtabl found (4 confirmed by hand)", n))
+		return
+	}
+	r.Check(len(bad) == 0, clause, "R4 WHO-WRITES", "Parser/identifier-table-entries-are-created-once", "Parser/Vistor.go",
+		fmt.Sprintf("all %d stores into the identifier table are guarded by `entry for the same name == nil`: an existing identifier (with its tag, code, precedence) is never replaced", n),
+		strings.Join(bad, "; "))
+}
+
+// c10ActionExtent — the text of an action `{ … }` is delimited by brace balance alone (C10.b): the scanning loop of
+// ActionQuoteState looks at exactly one rune per iteration, `{` raises the depth, `}` lowers it, nothing else touches
+// it, the scan stops exactly when the depth returns to 0 and the token emitted then spans everything consumed. Any
+// other consumption inside the loop (skipping "comments", "strings", blanks …) makes the extent of an action depend
+// on what the action's text looks like — the same action in another layout would end elsewhere.
+func c10ActionExtent(c *Ctx, r *Report) {
+	const cl = "C10.b"
+	f := c.need(r, cl, "Parser", "", "ActionQuoteState")
+	if f == nil {
+		return
+	}
+	info := f.Pkg.TypesInfo
+	key := f.Name + "/extent-is-brace-balance-one-rune-at-a-time"
+	var loop *ast.ForStmt
+	var depth types.Object
+	init1 := false
+	for _, st := range f.Decl.Body.List {
+		switch x := st.(type) {
+		case *ast.ForStmt:
+			if loop == nil {
+				loop = x
+			}
+		case *ast.LabeledStmt:
+			if fs, ok := x.Stmt.(*ast.ForStmt); ok && loop == nil {
+				loop = fs
+			}
+		case *ast.AssignStmt:
+			if loop == nil && len(x.Lhs) == 1 && len(x.Rhs) == 1 {
+				if v, isC := constInt(info, x.Rhs[0]); isC && v == 1 {
+					depth = identObj(info, x.Lhs[0])
+					init1 = true
+				}
+			}
+		}
+	}
+	if loop == nil || depth == nil || !init1 || loop.Cond != nil || loop.Init != nil || loop.Post != nil {
+		r.Undecided(cl, "R4 DECISION-TABLE", key, c.pos(f.Decl.Pos()), "expected `depth := 1; for { … }`")
+		return
+	}
+	// cursor movement inside the loop: exactly one next(), nothing else that moves the cursor
+	nNext, other := 0, ""
+	ast.Inspect(loop.Body, func(n ast.Node) bool {
+		call, ok := n.(*ast.CallExpr)
+		if !ok {
+			return true
+		}
+		fn := callee(info, call)
+		if fn == nil {
+			return true
+		}
+		switch fn.Name() {
+		case "next":
+			nNext++
+		case "backup", "backup2", "acceptRun", "acceptWord", "acceptOnlyAlphaWord", "accept", "ignore", "emit", "emitValue":
+			other = fn.Name()
+		}
+		return true
+	})
+	nested := false
+	ast.Inspect(loop.Body, func(n ast.Node) bool {
+		switch n.(type) {
+		case *ast.ForStmt, *ast.RangeStmt:
+			nested = true
+		}
+		return true
+	})
+	why := ""
+	switch {
+	case nested:
+		why = "the scanning loop contains another loop: more than one rune can be consumed per step, so part of the action's text is not looked at for braces"
+	case nNext != 1:
+		why = fmt.Sprintf("the scanning loop calls next() %d times per iteration, expected once", nNext)
+	case other != "":
+		why = "the scanning loop also calls " + other + "(), which moves the cursor or the token start inside the action"
+	}
+	if why == "" {
+		pe := newPathEnum(info)
+		pe.rename[depth] = "DEPTH"
+		paths, err := pe.Enumerate(loop.Body.List)
+		if err != nil {
+			why = err.Error()
+		}
+		val := func(ch int64) func(t *Term) (constant.Value, bool) {
+			return func(t *Term) (constant.Value, bool) {
+				if t.Op == "call" && strings.HasSuffix(t.Name, "lexer).next") {
+					return constant.MakeInt64(ch), true
+				}
+				return nil, false
+			}
+		}
+		for _, cs := range []struct {
+			name string
+			ch   int64
+			want string
+		}{{"{", '{', "(DEPTH + 1)"}, {"}", '}', "(DEPTH - 1)"}, {"other", 'x', ""}, {"quote", '"', ""}, {"slash", '/', ""}, {"newline", '\n', ""}} {
+			hit := selectPaths(paths, val(cs.ch))
+			if len(hit) == 0 && why == "" {
+				why = "no path for the character class " + cs.name
+			}
+			for _, p := range hit {
+				got := ""
+				if t := p.Env[depth]; t != nil {
+					got = t.String()
+				}
+				if got == "DEPTH" {
+					got = ""
+				}
+				if got != cs.want {
+					why = fmt.Sprintf("on %s the depth becomes %q, expected %q", cs.name, got, cs.want)
+				}
+				// the zero test
+				zero, tested := false, false
+				for _, cd := range p.Conds {
+					s := cd.Atom.String()
+					if strings.Contains(s, "DEPTH") && strings.HasSuffix(s, " == 0)") {
+						tested = true
+						zero = cd.Pol
+					}
+				}
+				if !tested {
+					why = "an iteration on " + cs.name + " does not test the depth against 0"
+					continue
+				}
+				if cs.name != "}" && zero {
+					continue // the depth is ≥ 1 before the step, so this arm is not reachable for a rune other than `}`
+				}
+				if zero != (p.Kind == "break") {
+					why = "on " + cs.name + " the scan does not stop exactly when the depth is back to 0 (path ends in " + p.Kind + ")"
+				}
+			}
+		}
+	}
+	// after the loop: emit(ActionQuote) — the token spans start..cursor
+	emits := false
+	for _, st := range f.Decl.Body.List {
+		if st.Pos() < loop.End() {
+			continue
+		}
+		if es, ok := st.(*ast.ExprStmt); ok {
+			if call, ok := es.X.(*ast.CallExpr); ok && len(call.Args) == 1 {
+				if fn := callee(info, call); fn != nil && fn.Name() == "emit" {
+					if kv, ok := constString(info, call.Args[0]); ok && kv == kindConsts(c)["ActionQuote"] {
+						emits = true
+					}
+				}
+			}
+		}
+	}
+	if why == "" && !emits {
+		why = "the action token is not emitted right after the scan (emit(ActionQuote))"
+	}
+	r.Check(why == "", cl, "R4 DECISION-TABLE", key, c.pos(loop.Pos()),
+		"one rune per step; `{` → depth+1, `}` → depth−1 and stop exactly at 0, every other rune (quotes, slashes, newlines included) leaves the depth alone; the token is everything consumed", why)
+}
+
+// directiveArms lists the keyword arms of DirectiveOtherState: `if l.accept…("word") { … }` statements at function
+// level (with or without else-if chaining) or the cases of a tagless switch at function level. kind is the constant
+// value passed to emit in the arm ("" if the arm emits nothing, e.g. %union); exclusive says that no later arm can be
+// tried after this one matched.
+type directiveArm struct {
+	word, kind string
+	exclusive  bool
+	pos        token.Pos
+}
+
+func directiveArms(f *FuncRef) []directiveArm {
+	info := f.Pkg.TypesInfo
+	var arms []directiveArm
+	wordOf := func(cond ast.Expr) (string, bool) {
+		call, ok := unparen(cond).(*ast.CallExpr)
+		if !ok || len(call.Args) != 1 {
+			return "", false
+		}
+		fn := callee(info, call)
+		w, isC := constString(info, call.Args[0])
+		if fn == nil || !strings.HasPrefix(fn.Name(), "accept") || !isC {
+			return "", false
+		}
+		return w, true
+	}
+	emitOf := func(body []ast.Stmt) string {
+		for _, bs := range body {
+			if es, ok := bs.(*ast.ExprStmt); ok {
+				if ec, ok := es.X.(*ast.CallExpr); ok && len(ec.Args) == 1 {
+					if efn := callee(info, ec); efn != nil && efn.Name() == "emit" {
+						if kv, ok := constString(info, ec.Args[0]); ok {
+							return kv
+						}
+					}
+				}
+			}
+		}
+		return ""
+	}
+	endsInReturn := func(body []ast.Stmt) bool {
+		if len(body) == 0 {
+			return false
+		}
+		_, ok := body[len(body)-1].(*ast.ReturnStmt)
+		return ok
+	}
+	list := f.Decl.Body.List
+	for i, st := range list {
+		switch x := st.(type) {
+		case *ast.IfStmt:
+			// an if / else-if chain: every arm but those followed by later top-level keyword tests is exclusive
+			laterKeyword := false
+			for _, later := range list[i+1:] {
+				switch y := later.(type) {
+				case *ast.IfStmt:
+					if _, ok := wordOf(y.Cond); ok {
+						laterKeyword = true
+					}
+				case *ast.SwitchStmt:
+					laterKeyword = true
+				}
+			}
+			for cur := x; cur != nil; {
+				if w, ok := wordOf(cur.Cond); ok && cur.Init == nil {
+					arms = append(arms, directiveArm{word: w, kind: emitOf(cur.Body.List), exclusive: endsInReturn(cur.Body.List) || !laterKeyword, pos: cur.Pos()})
+				}
+				next, _ := cur.Else.(*ast.IfStmt)
+				cur = next
+			}
+		case *ast.SwitchStmt:
+			if x.Tag != nil || x.Init != nil {
+				continue
+			}
+			laterKeyword := false
+			for _, later := range list[i+1:] {
+				switch y := later.(type) {
+				case *ast.IfStmt:
+					if _, ok := wordOf(y.Cond); ok {
+						laterKeyword = true
+					}
+				case *ast.SwitchStmt:
+					laterKeyword = true
+				}
+			}
+			for _, cs := range x.Body.List {
+				cc, ok := cs.(*ast.CaseClause)
+				if !ok || len(cc.List) != 1 {
+					continue
+				}
+				if w, ok := wordOf(cc.List[0]); ok {
+					fallsThrough := false
+					if n := len(cc.Body); n > 0 {
+						if br, isB := cc.Body[n-1].(*ast.BranchStmt); isB && br.Tok == token.FALLTHROUGH {
+							fallsThrough = true
+						}
+					}
+					arms = append(arms, directiveArm{word: w, kind: emitOf(cc.Body), exclusive: !fallsThrough && (endsInReturn(cc.Body) || !laterKeyword), pos: cc.Pos()})
+				}
+			}
+		}
+	}
+	return arms
 }
